@@ -385,7 +385,8 @@ async def explore(tier, seed, m):
                 if rg.values and rng.random() < 0.35: again = (rg, sels, q)
             ctx = {"log": [], "calls": []}
             try:
-                resp = await engine.execute(q, variables=dict(rg.values), context=ctx)
+                with er.guard(query=q, variables=rg.values, sdl=g.sdl()):
+                    resp = await engine.execute(q, variables=dict(rg.values), context=ctx)
             except Exception as ex:
                 st["problems"].append({"what": [f"execute raised {type(ex).__name__}: {ex}"[:300]], "query": q, "variables": rg.values, "sdl": g.sdl()}); continue
             mod = m.ask({"op": "directives", "schema": model, "vardefs": rg.vardefs, "variables": to_dv(rg.values), "selections": sels})
